@@ -249,11 +249,12 @@ func scanGlobals() (*globalsResult, error) {
 	sort.Slice(res.Vars, func(i, j int) bool { return res.Vars[i].Name < res.Vars[j].Name })
 	accessors := map[*types.Func][]string{}
 	accName := map[*types.Func]string{}
+	localAlias := map[*types.Var][]string{}
 	for pass := 1; pass <= 2; pass++ {
 		for _, path := range paths {
 			info := m.infos[path]
 			for _, f := range m.files[path] {
-				sc := &globalScan{fset: fset, root: root, info: info, isGlobal: isGlobal, res: res, accessors: accessors, accName: accName, pass: pass}
+				sc := &globalScan{fset: fset, root: root, info: info, isGlobal: isGlobal, res: res, accessors: accessors, accName: accName, localAlias: localAlias, pass: pass}
 				sc.file(f)
 			}
 		}
@@ -298,6 +299,10 @@ type globalScan struct {
 	pass      int
 	curFunc   *types.Func
 	accName   map[*types.Func]string
+	// local variables that were assigned memory of a package-level variable (x := g[i:j]); pass 2 scans
+	// their uses (flow-insensitively) and reports everything, writes included, as an escape "via local x"
+	localAlias map[*types.Var][]string
+	viaLocal   bool
 }
 
 func (s *globalScan) file(f *ast.File) {
@@ -356,6 +361,15 @@ func (s *globalScan) walk(n ast.Node, stack []ast.Node) {
 				}
 			}
 		}
+		if id, ok := x.(*ast.Ident); ok && s.pass == 2 {
+			if v, ok := s.info.Uses[id].(*types.Var); ok {
+				for _, name := range s.localAlias[v] {
+					s.viaLocal = true
+					s.use(name, "via local "+id.Name+": ", id, st)
+					s.viaLocal = false
+				}
+			}
+		}
 		if c, ok := x.(*ast.CallExpr); ok && s.pass == 2 {
 			var fn *types.Func
 			switch f := c.Fun.(type) {
@@ -406,7 +420,18 @@ func calleeName(info *types.Info, c *ast.CallExpr) string {
 // (or a call of an accessor function), st the stack of its ancestors.
 func (s *globalScan) use(name, via string, start ast.Expr, st []ast.Node) {
 	pos := relPos(s.fset, s.root, start.Pos())
-	write := func(how string) { s.res.Writes = append(s.res.Writes, gUse{name, via + how, pos}) }
+	var cur ast.Expr
+	write := func(how string) {
+		if s.viaLocal {
+			if cur == start && (how == "assign" || how == "incdec" || how == "range-assign" || strings.HasPrefix(how, "op-assign")) {
+				return // the local variable itself is rebound, no memory is written
+			}
+			// flow-insensitive: the local may hold other memory at this point; listed for review
+			s.res.Escapes = append(s.res.Escapes, gUse{name, via + "WRITE " + how, pos})
+			return
+		}
+		s.res.Writes = append(s.res.Writes, gUse{name, via + how, pos})
+	}
 	escape := func(how string) {
 		if how == "alias:return" && s.curFunc != nil {
 			// a function that hands out the variable's memory: its callers are scanned in pass 2
@@ -436,7 +461,7 @@ func (s *globalScan) use(name, via string, start ast.Expr, st []ast.Node) {
 		s.res.Escapes = append(s.res.Escapes, gUse{name, via + how, pos})
 	}
 	// the maximal access path rooted at start
-	cur := start
+	cur = start
 	i := len(st) - 1
 	for i >= 0 {
 		switch p := st[i].(type) {
@@ -510,6 +535,27 @@ done:
 		}
 		if refs(t) {
 			escape("alias:assign-rhs")
+			// remember a LOCAL variable that now aliases the memory: its uses are scanned in pass 2
+			if s.pass == 1 && len(p.Lhs) == len(p.Rhs) {
+				for k, e := range p.Rhs {
+					if e != cur {
+						continue
+					}
+					if lid, ok := p.Lhs[k].(*ast.Ident); ok {
+						var lv *types.Var
+						if d, ok := s.info.Defs[lid].(*types.Var); ok {
+							lv = d
+						} else if u, ok := s.info.Uses[lid].(*types.Var); ok {
+							lv = u
+						}
+						if lv != nil {
+							if _, isG := s.isGlobal[lv]; !isG && !lv.IsField() {
+								s.localAlias[lv] = append(s.localAlias[lv], name)
+							}
+						}
+					}
+				}
+			}
 		}
 	case *ast.IncDecStmt:
 		write("incdec")
